@@ -385,7 +385,7 @@ def run_case(case, workdir):
     shared['workers'] = workers
     for w in workers:
         w.start()
-        if w.rep.get(timeout=20) != 'ready':
+        if w.rep.get(timeout=180) != 'ready':
             raise RuntimeError('worker did not start')
 
     def table():
@@ -395,7 +395,7 @@ def run_case(case, workdir):
 
     def ask(w, c):
         w.cmd.put(c)
-        return w.rep.get(timeout=20)
+        return w.rep.get(timeout=180)
 
     steps = []
     try:
@@ -411,7 +411,7 @@ def run_case(case, workdir):
         for w in workers:
             w.cmd.put('quit')
         for w in workers:
-            w.join(timeout=20)
+            w.join(timeout=60)
         raw.close()
         if case['mode'] == 'process':
             try:
